@@ -83,6 +83,71 @@ def burst_op(rng, names: list[str], fnames: list[str]) -> dict:
     return {"op": "set_defaults", "which": w, "fields": rng.choice([{"depth": "77"}, {"mup": "5"}])}
 
 
+def conflict_ops(rng, names: list[str], fnames: list[str]) -> list[dict]:
+    """Two or three operations aimed at the same object: the interleavings that matter are those in which one
+    request's check (does the name exist? does the row exist?) is separated from its write by another's commit."""
+    w = rng.randrange(3)
+    k = rng.randrange(4)
+    kind = rng.randrange(14)
+    title = f"c{rng.randrange(100)}"
+    period = [{"which": w, "pid": "p1", "start": "PT0S", "duration": "PT2S"}]
+    if kind == 0:
+        name = rng.choice(["mone", "mtwo", "mthree"])
+        ops = [{"op": "add_mps", "name": name, "which": w, "title": title, "periods": period},
+               {"op": "add_mps", "name": name, "which": w, "title": title + "b", "periods": period}]
+    elif kind == 1:
+        name = rng.choice(["mtwo", "mthree"])
+        ops = [{"op": "add_mps", "name": name, "which": w, "title": title, "periods": period},
+               {"op": "edit_mps", "name": name, "which": 0, "title": title + "b", "periods": period}]
+    elif kind == 2:
+        ops = [{"op": "edit_mps", "name": "mone", "which": 0, "title": title, "periods": period},
+               {"op": "delete_stream", "which": w, "how": "ajax"}]
+    elif kind == 3:
+        fn = rng.choice(fnames[:3])
+        ops = [{"op": "upload", "which": w, "file": forged_file(rng, fn)},
+               {"op": "upload", "which": rng.choice([w, w, (w + 1) % 3]), "file": forged_file(rng, fn)}]
+    elif kind == 4:
+        ops = [{"op": "upload", "which": w, "file": forged_file(rng, rng.choice(fnames[:3]))},
+               {"op": "delete_stream", "which": w, "how": "ajax"}]
+    elif kind == 5:
+        d = rng.choice(names + ["delta"])
+        ops = [{"op": "add_stream", "dir": d, "title": title}, {"op": "add_stream", "dir": d, "title": title + "b"}]
+    elif kind == 6:
+        d = rng.choice(["delta", "epsilon"])
+        ops = [{"op": "add_stream", "dir": d, "title": title},
+               {"op": "edit_stream", "which": w, "title": title + "b", "timing_ref": "first", "which_file": 0,
+                "directory": d}]
+    elif kind == 7:
+        ops = [{"op": "delete_media", "which_file": k, "how": "ajax"},
+               {"op": "edit_stream", "which": w, "title": title, "timing_ref": "first", "which_file": k}]
+    elif kind == 8:
+        ops = [{"op": "delete_media", "which_file": k, "how": "ajax"},
+               {"op": rng.choice(["index", "edit_media", "delete_media"]), "which_file": k, "track_id": 2,
+                "lang": "eng", "how": "ajax"}]
+    elif kind == 9:
+        kid = "%032x" % rng.getrandbits(128)
+        ops = [{"op": "add_key", "kid": kid, "key": "%032x" % rng.getrandbits(128)},
+               {"op": "add_key", "kid": kid, "key": "%032x" % rng.getrandbits(128)}]
+    elif kind == 10:
+        ops = [{"op": "delete_key", "which": w, "key": ""},
+               {"op": rng.choice(["edit_key", "delete_key"]), "which": w, "key": "%032x" % rng.getrandbits(128)}]
+    elif kind == 11:
+        ops = [{"op": "delete_mps", "which": 0},
+               {"op": rng.choice(["edit_mps", "delete_mps"]), "name": "mone", "which": 0, "title": title,
+                "periods": period}]
+    elif kind == 12:
+        ops = [{"op": "delete_stream", "which": w, "how": "ajax"},
+               {"op": rng.choice(["delete_stream", "edit_stream", "set_defaults"]), "which": w, "how": "ajax",
+                "title": title, "timing_ref": "first", "which_file": 0, "fields": {"depth": "77"}}]
+    else:
+        ops = [{"op": "delete_stream", "which": w, "how": "ajax"},
+               {"op": "add_mps", "name": "mtwo", "which": w, "title": title, "periods": period}]
+    if rng.random() < 0.25:
+        ops.append(burst_op(rng, names, fnames))
+    rng.shuffle(ops)
+    return ops
+
+
 def generate_burst(seed: int, tier: str, index: int) -> dict:
     """Second stage: management operations served concurrently under the pre-emptive scheduler."""
     rng = base.rng_for(seed, "gen-burst")
@@ -100,7 +165,11 @@ def generate_burst(seed: int, tier: str, index: int) -> dict:
             {"which": 0, "pid": "p1", "start": "PT0S", "duration": "PT2S"}]})
     for _ in range(rng.choice([1, 1, 2])):
         n = rng.choice([2, 2, 2, 3])
-        script.append({"op": "burst", "requests": [burst_op(rng, names, fnames) for _ in range(n)],
+        if rng.random() < 0.45:
+            reqs = conflict_ops(rng, names, fnames)
+        else:
+            reqs = [burst_op(rng, names, fnames) for _ in range(n)]
+        script.append({"op": "burst", "requests": reqs,
                        "sched": rng.getrandbits(32), "same_token": rng.random() < 0.15})
         if rng.random() < 0.3:
             script.append({"op": "probe", "n": 2})
@@ -416,7 +485,9 @@ class Oracle:
                 continue
             self.known_bad.add(key)
             sim.violate(rule, f"after=burst:{ops}", f"{detail}; after the concurrent requests "
-                                                     f"{[r['method'] + ' ' + r['url'][:80] for r in reqs]}")
+                                                     f"{[r['method'] + ' ' + r['url'][:80] for r in reqs]} answered "
+                                                     f"{[r.status for r in outcome['results']]}; schedule "
+                                                     f"{[(t, l) for t, l in outcome['schedule']][:80]}")
         # a listed stream serves its manifests and media or fails with a clean 4xx - also while it is being modified
         for req, resp in zip(reqs, outcome["results"]):
             if req["recipe"]["op"] == "get" and resp.status >= 500 and reqs.index(req) not in outcome["aborted"]:
